@@ -160,7 +160,9 @@ def tree_cases(tree, sep, style, family, lead='', trail=''):
     """well-formed joined utterance, possibly surrounded by whitespace: the property oracle applies"""
     bare = sl.render(tree, sep, style)
     utt = lead + bare + trail
-    cls = (lambda out: {'spurious_separator_occurrence'} if style == 'compact' and spurious_occurrence(tree, sep, bare) else set())
+    trailing_ws = any(x and x.strip() and x != x.rstrip() for x in sep)      # ', ' or '= ': a separator whose tail is white space
+    cls = (lambda out: {'separator_ending_with_whitespace'} if trailing_ws else
+           {'spurious_separator_occurrence'} if style == 'compact' and spurious_occurrence(tree, sep, bare) else set())
     defined = [l for l, x in zip(LEVELS, sep) if x]
     plain = ''.join(sl.words_of(tree))
     want = {'phone': sl.phones_of(tree, sep), 'syllable': sl.sylls_of(tree, sep), 'word': sl.words_of(tree) if sep[2] else [plain]}
@@ -314,7 +316,14 @@ def main():
                 if not lead and not trail:
                     trail = '\n'
                 cases.extend(tree_cases(tree, sep, st, 'ws-%s-%s' % (fam, st), lead, trail))
-    # variants outside the proved fragment: surrounding whitespace, missing trailing
+    # separators that END with white space (legal for the constructor, distinct, no substring of one another): the per-token
+    # strip() of tokenize eats the tail of the separator that closes a token (known finding separator_ending_with_whitespace)
+    for k in range(40 if ck.thorough else 8):
+        fam = ['ascii', 'multi', 'ipa'][k % 3]
+        tree = sl.rand_tree(rng, sl.PHONES[fam])
+        for sep in ((', ', ';esyll', ';eword'), ('_', '= ', ';eword'), ('_', ';esyll', ' / '), (', ', None, ';eword')):
+            if sl.tree_ok(tree, sep):
+                cases.extend(tree_cases(tree, sep, 'compact', 'trailing-ws-separator-%s' % fam))
     # separators, tokens that contain separator fragments (correspondence only)
     for k in range(3000 if ck.thorough else 400):
         sep = rng.choice(seps)
